@@ -25,4 +25,16 @@ CHECKS["C15"] = dict(
           "Two FunctionEstimator findings are listed in known_findings.jsonl."),
     technique="Coq proof over translator-generated Gallina model + exhaustive exact vm_compute correspondence + real fits",
     design="4/C15")
+CHECKS["C13"] = dict(
+    text=("Theorems (Coq, all n, d, all values) about the Gallina validate_time_x/validate_array regenerated each run: every per-row form "
+          "(vector, column vector, list) and the trailing-column form give the same merged matrix; every scalar form (float, int, 0-d, "
+          "(1,), (1,1)) is the broadcast; wrong length / feature count / missing time are ValueErrors; generated tables prove all 8 "
+          "time-aware methods are multi_time-wrapped, default time=None, start with the merge and never read the raw arguments again. "
+          "The model is executed in Coq on ~1000 (form x size x flag) cases incl. a malformed stream and compared bit-exactly with the "
+          "implementation; real predictors of the 3 time-aware classes are called with every form (bitwise equality) and multi_time."),
+    note=("Trusted: Coq kernel; translator; list semantics of jnp.isscalar/asarray/full/squeeze/reshape/concatenate in PyVal.v (compared "
+          "exactly on every run); the multi_time wrapper is tied by a generated fact table + execution, not translated. Three defects "
+          "were fixed in /repo (list / (1,1) time forms; missing time=None defaults)."),
+    technique="Coq proof over translator-generated Gallina model + exact vm_compute correspondence + structural tables",
+    design="4/C13")
 NOT_YET = {}
